@@ -43,11 +43,30 @@ DYPOLY = ('dypolychord', 'taurex/optimizer/dypolychord.py::dyPolyChordOptimizer.
 
 def closure_flow(ix, outer_site, name):
     outer = mkflow(ix, outer_site)
-    f = ix.func(outer_site + '.' + name)
-    # free variables of the closure take the enclosing function's definitions
-    env = {k: v for k, v in outer.env.items() if isinstance(v, RF)}
-    for p in f.params():
-        env.pop(p, None)
+    try:
+        f = ix.func(outer_site + '.' + name)
+        # free variables of the closure take the enclosing function's definitions
+        env = {k: v for k, v in outer.env.items() if isinstance(v, RF)}
+        for p in f.params():
+            env.pop(p, None)
+    except AnalysisError:
+        # the callable is `partial(self.<method>, a, b, ...)`: the method with its leading parameters bound
+        v = outer.env.get(name)
+        va = atom_of(outer, v) if isinstance(v, RF) else None
+        if va is None or va.head != 'call' or not va.extra or va.extra[0] not in ('fn:partial', 'fn:functools.partial') or \
+                len(va.extra) > 1 or not va.args:
+            raise
+        tgt = fmt(outer, va.args[0])
+        of = ix.func(outer_site)
+        if not tgt.startswith('self.') or of.cls is None:
+            raise
+        f = ix.lookup_method(of.cls, tgt[5:])
+        if f is None:
+            raise
+        ps = f.params()[1:]
+        if len(va.args) - 1 > len(ps):
+            raise
+        env = dict(zip(ps, va.args[1:]))
     conv = Conv(outer.tab, env, outer.canon)
     fl = Flow(f, conv)
     fl.canon = outer.canon
